@@ -319,9 +319,16 @@ func suiteGated(h *H) {
 				if listed[rel] {
 					return nil
 				}
+				// what lies inside a temporary directory (renameio builds a replacement symlink in one) is temporary too
+				inTemp := false
+				for d := filepath.Dir(rel); d != "." && d != "/"; d = filepath.Dir(d) {
+					if tempRe.MatchString(filepath.Base(d)) && !listed[d] {
+						inTemp = true
+					}
+				}
 				if atReturn {
 					bad = fmt.Sprintf("%q is left behind after the error return", shortName(rel))
-				} else if !tempRe.MatchString(filepath.Base(rel)) {
+				} else if !tempRe.MatchString(filepath.Base(rel)) && !inTemp {
 					bad = fmt.Sprintf("unexpected entry %q", shortName(rel))
 				}
 				return nil
